@@ -8,6 +8,7 @@ quantity vectors are equal to each other within some tolerance.
 * `assert_equal_vectors` asserts that two quantity vectors are equal.
 """
 
+from math import inf
 from typing import Optional, SupportsFloat
 from pytest import approx
 from sympy import N, re, im
@@ -37,6 +38,9 @@ def approx_equal_numbers(
         relative_tolerance = APPROX_RELATIVE_TOLERANCE
     if absolute_tolerance is None:
         absolute_tolerance = abs(lhs * relative_tolerance)
+        # an infinite ``lhs`` must not produce an infinite tolerance, which would accept any ``rhs``
+        if absolute_tolerance == inf:
+            absolute_tolerance = 0.0
 
     rhs_approx = approx(rhs, rel=relative_tolerance, abs=absolute_tolerance)
     return lhs == rhs_approx
